@@ -184,6 +184,16 @@ def run(prop: str, tier: str, seed: int) -> int:
                 wit.append({"rows": rows, "nb": nb})
         cases.append({"id": f"{fam}-{k}", **bp.inst_record(inst), "lbs": bounds_of(inst), "wit": wit})
         rep.family(fam, 1, 0)
+    # total item areas beyond 2^53 (exact integer ceiling needed); no witness: only the area clause
+    for k in range({"quick": 2, "thorough": 6}[tier]):
+        W = rng.randint(2_000_000_000, 2_140_000_000)
+        H = rng.randint(4_600_000, 5_200_000)
+        kb = rng.randint(1, 3)
+        items = [[W, 1, kb * H], [1, 1, 1]]     # area = kb bins + 1: the area bound is kb + 1
+        inst = bp.make_instance(W, H, items)
+        cases.append({"id": f"huge-area-{k}", **bp.inst_record(inst), "lbs": bounds_of(inst)[:2], "wit": []})
+        rep.family("area-beyond-2^53", 1, 1)
+        rep.nontrivial += 1
     vs = core.validate("binpack/Trace_LB", cases, shards=14)
     core.classify(rep, vs, {c["id"]: c for c in cases}, family="recorded")
     rep.traces += len(cases)
